@@ -41,19 +41,20 @@ def gen_cases(rng, tier, info):
     for i in range(0, 65536, 2048):
         cases.append(Case("codes-%d" % i, ["(lang_tag %d)" % c for c in range(i, i + 2048)]))
     tags = [t for _, t in REFERENCE]
-    alpha = "enfrzZU-S"
+    alpha = "enfrzZU-S_"
     maxlen = 4 if tier == "quick" else 5
     for n in range(0, maxlen + 1):
         for tup in itertools.product(alpha, repeat=n):
             tags.append("".join(tup))
     langs = ["en", "fr", "de", "zh", "es", "pt", "ar", "xx", "EN", "e", "eng", ""]
     regions = ["US", "ZZ", "CA", "us", "U", "", "-", "US-x", "GB", "CN", "TW", "419"]
+    tags += ["en_US", "fr_CA", "de_", "zh_Hans-CN", "en_", "_US", "en.US", "en US", "en/US", "pt_BR", "zh_TW", "en-US_x", "en_US-x"]
     for l in langs:
         for r in regions:
             tags.append(l + "-" + r)
     for _ in range(500 if tier == "quick" else 20000):
         n = rng.randint(0, 8)
-        tags.append("".join(rng.choice("abcdefghijklmnopqrstuvwxyzABCDEFGHIJKLMNOPQRSTUVWXYZ-0é") for _ in range(n)))
+        tags.append("".join(rng.choice("abcdefghijklmnopqrstuvwxyzABCDEFGHIJKLMNOPQRSTUVWXYZ-0é_") for _ in range(n)))
     tags = sorted(set(tags))
     for i in range(0, len(tags), 1000):
         cases.append(Case("tags-%d" % i, ["(lang_from_tag %s)" % enc(t) for t in tags[i:i + 1000]]))
